@@ -59,6 +59,9 @@ def corruptions(clean):
     out.append(('energy: lacking ZPE not raised', 1, i, lambda e: e.update(vibKind='Empty'), 'EnergyOutcome'))
     i = first(ev0, 'lsr')
     out.append(('lsr: energy', 0, i, lambda e: e.update(U=bump(e['U'])), 'LSRLinearScaling'))
+    j = max(k for k, e in enumerate(ev0) if e['ev'] == 'lsr')          # after the edit: a non-zero slope
+    out.append(('lsr: reported reference energy', 0, j, lambda e: e['terms'][0]['sub'].__setitem__(0, bump(e['terms'][0]['sub'][0], 1e-1)),
+                'LSRLinearScaling'))
     out.append(('lsr: entropy', 0, i, lambda e: e.update(S=[1, -2]), 'LSRNoEntropy'))
     i = first(ev0, 'routed')
     out.append(('routed: one entry', 0, i, lambda e: e['rows'][2]['b'].__setitem__(1, bump(e['rows'][2]['b'][1])),
@@ -77,7 +80,7 @@ def corruptions(clean):
                 'OptDimScale'))
     out.append(('opt: dimensional verbose vector', 0, i, lambda e: e['rows'][1]['Hvec'].__setitem__(0, bump(e['rows'][1]['Hvec'][0], 0.5)),
                 'OptDimVerbose'))
-    i = first(ev1, 'missing', lambda e: e['g'] == 'Cv' and not e['dim'])
+    i = first(ev1, 'missing', lambda e: e['g'] != 'ZPE' and not e['dim'] and row(e, re=True, rw=True)['out'] == 'AttributeError')
     out.append(('missing: raise_error ignored', 1, i, lambda e: row(e, re=True, rw=True).update(out='value', out0='value'),
                 'MissingQuantityRaises'))
     out.append(('missing: warning although raise_warning off', 1, i, lambda e: row(e, re=False, rw=False).update(nwarn=1, nwarn0=1),
